@@ -3,7 +3,8 @@ import MirosModel.Gen.Constants
 /-! Line-protocol front end for layer 1 (used by Driver.lean). Numeric tokens only.
 
 `hsm <cfg> n p1..pn i1..in x1..xn depth nR (s sig kind tgt)*nR nOps (op arg)*nOps`
-  cfg: 9 = generated `Gen.cfg`, else bits resync(1) drillGuard(2) initGuard(4)
+  cfg: 9 = generated `Gen.cfg`, else bits resync(1) drillGuard(2) initGuard(4) superGuard(16)
+       (the historical codes 0..7 have `superGuard = false`; 16..23 are the same with it on)
   kind: 0 tran, 1 handled, 2 unhandled, 3 none   (absent ⇒ pass)
   op: 0 start s | 1 dispatch n | 2 is_in X | 3 child_state P | 4 (test only) place the chart in state s
 `hsmspec …` same input, answers with the UML spec instead of the faithful model.
@@ -47,7 +48,8 @@ def showLog (l : Log) : String :=
 
 def cfgOf (code : Nat) : Cfg :=
   if code = 9 then Miros.Gen.cfg
-  else { resync := code % 2 = 1, drillGuard := (code / 2) % 2 = 1, initGuard := (code / 4) % 2 = 1 }
+  else { resync := code % 2 = 1, drillGuard := (code / 2) % 2 = 1, initGuard := (code / 4) % 2 = 1,
+         superGuard := (code / 16) % 2 = 1 }
 
 structure HCase where
   cfg : Cfg
